@@ -253,7 +253,7 @@ def run_tlc(module, cfg_text, env=None, workers=1, timeout=900, heap="8g", extra
     if names:
         e["VERIF_NAMES"] = names_file()
     cmd = ["timeout", str(timeout), "java", "-XX:+UseParallelGC", "-Xmx" + heap, "-Xss768m", "-cp", TLC_CP, "tlc2.TLC",
-           "-workers", str(workers), "-metadir", os.path.join(meta, "states"), "-config", cfg] + list(extra) + [module + ".tla"]
+           "-workers", str(workers), "-metadir", os.path.join(meta, "states"), "-noGenerateSpecTE", "-config", cfg] + list(extra) + [module + ".tla"]
     t0 = time.time()
     r = subprocess.run(cmd, cwd=SPEC, env=e, stdout=subprocess.PIPE, stderr=subprocess.STDOUT, text=True, errors="replace")
     shutil.rmtree(meta, ignore_errors=True)
